@@ -229,6 +229,35 @@ def bindFails (ts : Obj.Types) (a : Obj.Atlas) (id : Nat) : Bool :=
 def showMOut (o : MOut) : String :=
   showToks o.toks ++ "/" ++ (match o.fail with | none => "ok" | some .err => "err" | some .panic => "panic")
 
+/-- encode a token list with the format's encoder model; `none` unless accepted with done on the last token -/
+def encodeToks (f : String) (line : Option Bytes) (indent : Bytes) (toks : List Tok) : Option Bytes :=
+  let (fl, ws) := if f == "cbor" then runOut CborEnc.step CborEnc.init toks
+                  else runOut (JsonEnc.step ⟨line, indent⟩ FloatText.jsonFloat) JsonEnc.init toks
+  if fl.getLast? == some Flag.done && fl.length == toks.length then some ws.flatten else none
+
+def decodeBytes (f : String) (bs : Bytes) : Option (List Tok) :=
+  if f == "cbor" then
+    let o := CborDec.decode false (Rd.ofBytes bs); if o.res.isOk then some o.toks else none
+  else
+    let o := JsonDec.decode (Rd.ofBytes bs); if o.res.isOk then some o.toks else none
+
+/-- Marshal: value → bytes (model composition) -/
+def mMarshal (st : DState) (a : Obj.Atlas) (f : String) (ti : Nat) (v : Val) : Option Bytes :=
+  let mo := marshalV st.types a trLib 100000 ti v
+  match mo.fail with
+  | some _ => none
+  | none => encodeToks f none [] mo.toks
+
+/-- Unmarshal: bytes → value of type `ti` -/
+def mUnmarshal (st : DState) (a : Obj.Atlas) (f : String) (ti : Nat) (bs : Bytes) : Option Val :=
+  match decodeBytes f bs with
+  | none => none
+  | some toks =>
+    if bindFails st.types a ti then none else
+    match unmV st.types a trLib st.it 100000 ti (zeroVal st.types 64 ti) toks with
+    | .ok rv [] _ => some rv
+    | _ => none
+
 def handleObj (st : DState) (parts : List String) : Option (DState × String) :=
   match parts with
   | ["T", id, d] =>
@@ -280,6 +309,82 @@ def handleObj (st : DState) (parts : List String) : Option (DState × String) :=
           | _ => some (st, "M=" ++ hexOrDash bytes ++ "/-/err" ++ spec)
       | _, _ => some (st, "bad-op")
     | _, _, _ => some (st, "bad-op")
+  | ["remarshal", f, aid, tid, val] =>
+    match parseNat aid, parseNat tid with
+    | some ai, some ti =>
+      match st.atlases.lookup ai, parseValue st.types ti val with
+      | some a, some v =>
+        let h := fun (b : Option Bytes) => match b with | some x => hexOrDash x | none => "-"
+        match mMarshal st a f ti v with
+        | none => some (st, "M=-/-/-/-/err1")
+        | some b1 =>
+          match mUnmarshal st a f st.it.iface b1 with
+          | none => some (st, "M=" ++ h b1 ++ "/-/-/-/err2")
+          | some u1 =>
+            match mMarshal st a f st.it.iface u1 with
+            | none => some (st, "M=" ++ h b1 ++ "/-/-/-/err3")
+            | some b2 =>
+              match mUnmarshal st a f ti b2 with
+              | none => some (st, "M=" ++ h b1 ++ "/" ++ h b2 ++ "/-/-/err4")
+              | some back =>
+                match mUnmarshal st a f st.it.iface b2 with
+                | none => some (st, "M=" ++ h b1 ++ "/" ++ h b2 ++ "/-/" ++ showVal back ++ "/err5")
+                | some u2 =>
+                  match mMarshal st a f st.it.iface u2 with
+                  | none => some (st, "M=" ++ h b1 ++ "/" ++ h b2 ++ "/-/" ++ showVal back ++ "/err6")
+                  | some b3 =>
+                    some (st, "M=" ++ h b1 ++ "/" ++ h b2 ++ "/" ++ h b3 ++ "/" ++ showVal back ++ "/ok" ++
+                      " S=" ++ showVal (normV (if f == "cbor" then .cbor else .json) st.types a trLib st.it 100000 ti v))
+      | _, _ => some (st, "bad-op")
+    | _, _ => some (st, "bad-op")
+  | ["clone", aid, tid, val] =>
+    match parseNat aid, parseNat tid with
+    | some ai, some ti =>
+      match st.atlases.lookup ai, parseValue st.types ti val with
+      | some a, some v =>
+        let mo := marshalV st.types a trLib 100000 ti v
+        match mo.fail with
+        | some _ => some (st, "M=-/err")
+        | none =>
+          if bindFails st.types a ti then some (st, "M=-/err") else
+          match unmV st.types a trLib st.it 100000 ti (zeroVal st.types 64 ti) mo.toks with
+          | .ok rv [] _ => some (st, "M=" ++ showVal rv ++ "/ok S=" ++ showVal (normV .pretty st.types a trLib st.it 100000 ti v))
+          | _ => some (st, "M=-/err")
+      | _, _ => some (st, "bad-op")
+    | _, _ => some (st, "bad-op")
+  | "pump" :: sf :: kf :: ln :: ind :: hx :: _ =>
+    match parseHex hx, parseHex ind with
+    | some bs, some indent =>
+      let line : Option Bytes := if ln == "nil" then none else parseHex ln
+      -- source: decode one item, keeping the tokens produced before an error
+      let (toks, dok, left0) := if sf == "cbor" then
+          let o := CborDec.decode false (Rd.ofBytes bs); (o.toks, o.res.isOk, o.rd.sourceLeft)
+        else
+          let o := JsonDec.decode (Rd.ofBytes bs); (o.toks, o.res.isOk, o.rd.sourceLeft)
+      let (fl, ws) := if kf == "cbor" then runOut CborEnc.step CborEnc.init toks
+                      else runOut (JsonEnc.step ⟨line, indent⟩ FloatText.jsonFloat) JsonEnc.init toks
+      -- lock-step: if the sink stopped early the source was stepped exactly as many times
+      let left := if fl.length < toks.length then
+          (if sf == "cbor" then (CborDec.run false fl.length CborDec.init (Rd.ofBytes bs) [] 0 0).rd.sourceLeft
+           else (JsonDec.run fl.length JsonDec.init (Rd.ofBytes bs) [] 0).rd.sourceLeft)
+        else left0
+      -- pump verdict: ok iff the source finished (dok) and the sink signalled done on that very token
+      let sinkOk := fl.getLast? == some Flag.done && fl.length == toks.length
+      let sinkErr := fl.getLast? == some Flag.err || fl.getLast? == some Flag.panic
+      let cls := if sinkErr then "err" else if dok && sinkOk then "ok" else "err"
+      let slow :=
+        if cls == "ok" then
+          (match st.atlases.lookup 0 with
+           | some a0 =>
+             (match mUnmarshal st a0 sf st.it.iface bs with
+              | some u => (match (let mo := marshalV st.types a0 trLib 100000 st.it.iface u
+                                   if mo.fail.isSome then none else encodeToks kf line indent mo.toks) with
+                           | some b => hexOrDash b | none => "fail")
+              | none => "fail")
+           | none => "fail")
+        else "-"
+      some (st, "M=" ++ hexOrDash ws.flatten ++ "/" ++ toString left ++ "/" ++ cls ++ " W=" ++ slow)
+    | _, _ => some (st, "bad-op")
   | ["marshal", aid, tid, _viaPtr, val] =>
     match parseNat aid, parseNat tid with
     | some ai, some ti =>
